@@ -122,6 +122,18 @@ func (ck *Check) finish(level string) int {
 		fmt.Printf("VIOLATION property=%s replay=%s%s\n", ck.Prop, path, suffix)
 		failed = append(failed, map[string]any{"obligation": r.VC.Name, "status": r.Status, "clause": r.VC.Src, "pos": r.VC.Pos, "replay": path})
 	}
+	{
+		rs := append([]*Result(nil), ck.results...)
+		sort.Slice(rs, func(i, j int) bool { return rs[i].Seconds > rs[j].Seconds })
+		var slow []any
+		for i := 0; i < len(rs) && i < 5; i++ {
+			slow = append(slow, map[string]any{"obligation": rs[i].VC.Name, "path": rs[i].VC.Trace, "seconds": round2(rs[i].Seconds), "tried": rs[i].Tried})
+		}
+		if ck.extraCov == nil {
+			ck.extraCov = map[string]any{}
+		}
+		ck.extraCov["slowest_obligations"] = slow
+	}
 	for _, d := range ck.dataObl {
 		obligations++
 		if d["ok"] == true {
